@@ -13,7 +13,7 @@ MANIFEST = {
                   "connector, a bridged session has a bridged partner (C25.inv); a chunk received from a bridged client is appended whole "
                   "to the end of exactly its partner's write buffer and nothing else changes (delivery, delivery_spec); when a bridge comes "
                   "into being the partner is queued the BEGIN line and then everything the connector had pending, in order "
-                  "(bridge_handover); every write buffer "
+                  "(bridge_handover, bridge_drained); every write buffer "
                   "is a FIFO of exactly what was queued for that client (fifo, flush_fifo); every byte a step queues is either a reply "
                   "to the sending client or goes to the client whose bridge with the sender is established after the step, relayed bytes "
                   "being the sender's own (relay_only_to_bridged_partner, isolation_spec); EOF/error on one side of a bridge closes the "
@@ -255,6 +255,79 @@ def connector_script(rng, k: int, self_id: int, target_id: int, *, spelled: bool
     return ph
 
 
+BURST_SIZES = [4063, 4064, 4065, 4096, 4097, 8160, 8192, 12000, 16351, 16352, 16353, 16384, 20000, 40000, 65536]
+
+
+def burst_payload(rng, size: int) -> str:
+    """`size` bytes of post-identity data as payload parts: no newline at all / newlines inside / lines that look like
+    relay commands"""
+    kind = rng.choice(["plain", "newlines", "commands", "commands", "mixed"])
+    if kind == "plain":
+        b = "%02x" % rng.choice([x for x in range(256) if x != 10])
+        return f"{hx(bytes(x for x in rand_bytes(rng, 8) if x != 10) or b'x')}+{b}*{max(1, size - 8)}"
+    if kind == "newlines":
+        line = bytes(x for x in rand_bytes(rng, rng.choice([1, 7, 63, 200])) if x != 10) + b"\n"
+        return f"{hx(line)}*{max(1, size // len(line))}+{hx(rand_bytes(rng, 5))}"
+    if kind == "commands":
+        line = rng.choice([b"REGISTER " + spell(rng, rng.randrange(3)).encode() + b"\n",
+                           b"CONNECT " + peer_hex(6).encode() + b" " + peer_hex(rng.randrange(3)).encode() + b"\n",
+                           b"PONG\n", b"REGISTER zz\n", b"CONNECT a b\r\n"])
+        return f"{hx(line)}*{max(1, size // len(line))}+{hx(b'tail-without-newline')}"
+    line = b"REGISTER " + peer_hex(rng.randrange(3)).encode() + b"\n"
+    n = max(1, size // 3)
+    return f"{hx(rand_bytes(rng, 16))}+{'%02x' % rng.randrange(256)}*{n}+{hx(line)}*{max(1, n // len(line))}+00*{n}"
+
+
+def gen_burst(rng, big: bool) -> Case:
+    """a connector sends its identity and 4 KiB … 64 KiB of data in ONE write (so the relay needs further recv() calls
+    in the handle_read that bridged the session); identity whole / split across reads / CONNECT in the same write; the
+    claimed target talks before the connector's identity has arrived"""
+    nl = b"\n"
+    tid, sid = rng.randrange(3), rng.choice([5, 6, 7])
+    ops = ["acc 1", "acc 2"]
+    extra = rng.random() < 0.4
+    if extra:
+        ops.append("acc 3")
+    ops.append(snd(1, b"REGISTER " + peer_hex(tid).encode() + nl))
+    con = b"CONNECT " + peer_hex(sid).encode() + b" " + peer_hex(tid).encode() + nl
+    identity = rand_bytes(rng, 32)
+    size = rng.choice(BURST_SIZES if big else BURST_SIZES[:13])
+    style = rng.choice(["whole", "whole", "split", "with-connect", "short-then-burst"])
+    early_target_talk = rng.random() < 0.35
+    if style == "with-connect":
+        if early_target_talk:
+            ops.append(snd(1, rng.choice([b"PONG\n", b"hello?\n", b"partial"])))
+        ops.append(f"snd 2 {hx(con + identity)}+{burst_payload(rng, size)}")
+    else:
+        ops.append(snd(2, con))
+        if early_target_talk:   # the claimed target sends while its connector is still in AwaitingIdentity
+            ops.append(snd(1, rng.choice([b"PONG\n", b"data-too-early\n", b"partial", rand_bytes(rng, 40)])))
+        if style == "whole":
+            ops.append(f"snd 2 {hx(identity)}+{burst_payload(rng, size)}")
+        elif style == "split":
+            cut = rng.choice([1, 16, 31])
+            ops.append(snd(2, identity[:cut]))
+            if extra and rng.random() < 0.5:
+                ops.append(snd(3, b"PONG\n"))
+            ops.append(f"snd 2 {hx(identity[cut:])}+{burst_payload(rng, size)}")
+        else:
+            ops.append(snd(2, identity[:31]))
+            ops.append(f"snd 2 {burst_payload(rng, size)}")
+    # both directions afterwards
+    for _ in range(rng.choice([1, 2, 3])):
+        k = rng.choice([1, 2])
+        ops.append(f"snd {k} {data_payload(rng)}")
+    if extra:
+        ops.append(snd(3, b"CONNECT " + peer_hex(7).encode() + b" " + peer_hex(tid).encode() + nl))
+    order = [1, 2] + ([3] if extra else [])
+    rng.shuffle(order)
+    for k in order:
+        if rng.random() < 0.85:
+            ops.append(leave_op(rng, k))
+    ops.append("nop")
+    return Case(ops=ops, tag="burst/" + style)
+
+
 def leave_op(rng, k: int) -> str:
     return f"{rng.choice(['eof', 'eof', 'eof', 'shw', 'rst', 'hup'])} {k}"
 
@@ -421,8 +494,10 @@ def generate(ctx, budget):
     thorough = ctx.tier == "thorough"
     for i in range(budget):
         r = ctx.rng.random()
-        if r < 0.85:
+        if r < 0.75:
             cases.append(gen_pairing(ctx.rng, ctx.rng.choice(PAIRING_SHAPES), thorough and i % 5 == 0))
+        elif r < 0.87:
+            cases.append(gen_burst(ctx.rng, thorough))
         else:
             cases.append(gen_malformed(ctx.rng, thorough and i % 5 == 0))
     if thorough:
@@ -462,6 +537,8 @@ def spec() -> Spec:
         rule="interleavings of REGISTER/CONNECT/identity/data/disconnect scripts of 2-5 clients over 1-3 peer ids against the real "
              "RelayServer on loopback sockets (harness-scheduled events, drained after every op): re-registration of a claimed peer, "
              "one peer id spelled lower/UPPER/MiXed across REGISTER, CONNECT self and CONNECT target with several connectors per peer, "
+             "identity + 4 KiB..64 KiB of pipelined data in one write (no newline / newlines / command look-alikes; identity whole, "
+             "split, or behind CONNECT; target talking before the identity arrives), "
              "duplicate ids, CONNECT from registered sessions, self-connect, pipelined and fragmented commands/identity, payloads around "
              "4096/16384, disconnect (FIN, half-close, RST, HUP) at every stage; plus malformed streams; distinct = sha256 of the op list; "
              "non-trivial = a bridge is established",
